@@ -95,6 +95,7 @@ type lexer struct {
 	line      int
 	col       int
 	prevCol   int
+	tokLine   int
 	pos       ast.Pos
 	last      atomic.Value
 }
@@ -871,6 +872,14 @@ Scan:
 }
 
 func (l *lexer) scanRawToken() int {
+	tok := l.rawToken()
+	if tok > 0 && tok != '\n' {
+		l.tokLine = l.line
+	}
+	return tok
+}
+
+func (l *lexer) rawToken() int {
 	for {
 		r, err := l.read()
 		if err != nil {
@@ -959,12 +968,39 @@ func (l *lexer) scanRawToken() int {
 			if l.lit(); len(l.word) != 0 {
 				return WORD
 			}
-			if !l.linebreak() {
+			if l.tokLine == l.line {
+				// the <newline> after a trailing comment is a token
+				if !l.trailingComment() {
+					return -1
+				}
+			} else if !l.linebreak() {
 				return -1
 			}
 		default:
 			l.b.WriteRune(r)
 		}
+	}
+}
+
+// trailingComment scans a comment up to, but not including, the
+// <newline>.
+func (l *lexer) trailingComment() bool {
+	l.read()
+	l.mark(-1)
+	for {
+		r, err := l.read()
+		if err != nil {
+			l.comment()
+			return false
+		}
+
+		if r == '\n' {
+			l.unread()
+			l.comment()
+			l.mark(0)
+			return true
+		}
+		l.b.WriteRune(r)
 	}
 }
 
@@ -1597,6 +1633,9 @@ func (l *lexer) emit(typ int) {
 		}
 	}
 	l.word = nil
+	if typ != '\n' {
+		l.tokLine = l.line
+	}
 	select {
 	case l.token <- tok:
 	case <-l.cancel:
